@@ -387,6 +387,29 @@ theorem reported_error_attained (tests : List C) (nOut : Nat) (bot : ℝ) (dev :
     obtain ⟨t, ht, rfl⟩ := caseDevs_mem dev c tests.length ntrials j w hw
     exact ⟨t, ht, by rw [Nat.add_comm]; exact h⟩
 
+/-- non-vacuity of B3/B4: two cases, two trials, one output, the `i`-th draw has error `i`: the entry reported
+for the second case bounds the error `3` of its second draw -/
+example : ∃ v, (errorLoop [(0, false), (1, false)] 1 (-1 : ℝ) (fun i _ => [(i : ℝ)]) 2)[1]? = some ((1, false), v) ∧
+    VLe [3] v := by
+  have h := reported_error_ge_each_draw [(0, false), (1, false)] 1 (-1 : ℝ) (fun i (_ : Nat × Bool) => [(i : ℝ)]) 2
+    (fun _ _ => rfl) 1 (by decide) 1 (1, false) rfl
+  simpa using h
+
+/-- the assertion of test.py:296 is the only way the loop can fail: if every error vector has
+`len(irreps_out)` entries the checked loop returns the value of `errorLoop` -/
+theorem errorLoopChecked_eq (tests : List C) (nOut : Nat) (bot : ℝ) (dev : Nat → C → List ℝ) (ntrials : Nat)
+    (hlen : ∀ i c, (dev i c).length = nOut) :
+    errorLoopChecked tests nOut bot dev ntrials = some (errorLoop tests nOut bot dev ntrials) := by
+  unfold errorLoopChecked
+  rw [if_pos]
+  rw [List.all_eq_true]
+  intro t _
+  rw [List.all_eq_true]
+  intro j _
+  cases tests[j]? with
+  | none => rfl
+  | some c => simp [hlen]
+
 /-- **B5** `assert_equivariant` passes iff every reported error of every case is `≤ tolerance`
 (guard: at least one output, otherwise `err.max()` raises). -/
 theorem assert_equivariant_pass_iff (tol : ℝ) (errs : List (C × List ℝ)) (hne : ∀ cv ∈ errs, cv.2 ≠ []) :
@@ -576,6 +599,21 @@ theorem equivariant_function_passes (A : Geom G T X Irr) (dist : X → X → ℝ
     have := congrArg List.length h
     rw [List.length_replicate, List.length_nil] at this
     omega
+
+/-- non-vacuity of B6/B7: a one-dimensional toy action (`g·x = g x + t`), the identity as function under test on a
+`'cartesian_points'` argument: equivariant, hence it passes with every tolerance `≥ 0`, for every PRNG outcome -/
+example (randRot randTr : Nat → ℝ) (ntrials : Nat) (hn : 1 ≤ ntrials) (x : ℝ) :
+    assertEquivariant (0 : ℝ)
+      (equivarianceError (⟨fun g a => g * a, fun a t => a + t, fun _ g a => g * a, fun k g => (-1) ^ k * g, 0⟩ : Geom ℝ ℝ ℝ Unit)
+        (fun a b => |a - b|) id [.cartesian] [.cartesian] [x] ntrials true true (-1) randRot randTr) = .pass := by
+  apply equivariant_function_passes
+  · intro g t; rfl
+  · intro a; simp
+  · rfl
+  · norm_num
+  · exact hn
+  · simp
+  · exact le_rfl
 
 /-- **B8** `rot_mat *= (-1)**k` on a proper 3×3 rotation has determinant `(-1)^k`: parity case 1 is improper -/
 theorem det_parity_flip (R : Matrix (Fin 3) (Fin 3) ℝ) (hR : R.det = 1) (k : Nat) :
